@@ -295,6 +295,7 @@ static void generate_ref (sexp ctx, sexp ref, int unboxp) {
 		? SEXP_OP_GLOBAL_REF : SEXP_OP_GLOBAL_KNOWN_REF);
       sexp_emit_word(ctx, (sexp_uint_t)sexp_ref_cell(ref));
       bytecode_preserve(ctx, sexp_ref_cell(ref));
+      sexp_inc_context_depth(ctx, +1);
     } else
       sexp_emit_push(ctx, sexp_ref_cell(ref));
   } else {
